@@ -209,11 +209,16 @@ TReceive ==
   /\ IsEv("receive")
   /\ LET e == E  w == e.w
          a == [sl |-> e.sl, dest |-> e.dest, amt |-> e.amt, ttl |-> e.ttl, hasproof |-> e.hasproof, kernin |-> e.kernin]
-         r == Receive(st, w, a)
+         bad == Has(e, "tamper") /\ e.tamper # ""      \* a request that cannot be served: refused without effect
+         \* (the key index is taken before the kernel is built: the gap it leaves is legal residue)
+         r == IF bad THEN [steps |-> <<BumpChild(st, w)>>, res |-> "bad", key |-> "", rep |-> 0] ELSE Receive(st, w, a)
          acct == AcctOf(st, w, e.dest)
          hv2 == IF Ok(e) THEN HvAfterReceive(st, S2, hv, w, e.sl) ELSE hv IN
      /\ Check(ReplayNoEffectA(st, S2, hv, w, "receive", e.sl, e.res, acct), "C03", "ReplayNoEffect", e, "receive")
      /\ Check(ForeignOnlyAdds(st, S2, w, ""), "C07", "ForeignOnlyAdds", e, "receive")
+     \* a foreign request never changes which account the wallet acts on (in-memory state the owner sees)
+     /\ Check(S2.w[w].active = st.w[w].active, "C07", "ForeignKeepsActiveAccount", e, "receive")
+     /\ bad => Check(~Ok(e), "C07", "UnservableRefused", e, "")
      \* a second delivery of a slate to an account that holds a (not cancelled) receive entry for it
      \* is refused without effect - however long ago the first one was, confirmed or not
      /\ (\E t \in TxBySlate(st, w, e.sl, {acct}) : st.w[w].txs[t].ty = "TxReceived") =>
@@ -342,6 +347,15 @@ BooksEqualChain(e, s2, utxo) ==
   /\ Check(\A k \in mine : OID(s2, w, k) \in utxo, "C04", "BooksSubsetOfChain", e, "")
   /\ Check(\A k \in OutsOfAcct(s2, w, a) : (OID(s2, w, k) \in utxo /\ s2.w[w].outs[k].st # "Unconfirmed")
                 => k \in mine, "C04", "ChainSubsetOfBooks", e, "")
+\* the heights the figures are computed from are the chain's: an Unspent record of the active account
+\* carries the height of the block its output is in, a coinbase matures Maturity blocks after THAT
+HeightsFromChain(e, s2, utxo) ==
+  LET w == e.w  a == s2.w[w].active IN
+  Check(\A k \in OutsOfAcct(s2, w, a) :
+           (s2.w[w].outs[k].st = "Unspent" /\ OID(s2, w, k) \in utxo /\ HeightOfOut(s2, OID(s2, w, k)) > 0) =>
+              /\ s2.w[w].outs[k].h = HeightOfOut(s2, OID(s2, w, k))
+              /\ s2.w[w].outs[k].cb => s2.w[w].outs[k].lk = HeightOfOut(s2, OID(s2, w, k)) + Maturity,
+        "C04", "HeightsFromChain", e, "")
 InfoPartition(e, s2) ==
   LET w == e.w  a == s2.w[w].active  m == e.minconf
       H == s2.w[w].idx[a].confh
@@ -376,6 +390,7 @@ TRefresh ==
      /\ (Ok(e) /\ e.refreshed /\ clean) =>
           /\ BooksEqualChain(e, S2, utxo)
           /\ InfoPartition(e, S2)
+          /\ HeightsFromChain(e, S2, utxo)
           /\ LedgerEquality(e, S2)
      /\ (Ok(e) /\ e.refreshed) =>
           Check(RevertedRestored(st, S2, w, utxo), "C18", "RevertedRestored", e, "refresh")
